@@ -118,6 +118,10 @@ Definition adjacent_ex (p : position) (x y ax ay : Z) : res (Z * Z) :=
   else if (y + 1 <? psize p) && free x (y + 1) then Ok (x, y + 1)
   else Panic.
 
+(* adjacent(): as pinned, or (repair fx_ds) the wrapper adjacentExcept(p, x, y, -1, -1) *)
+Definition adjacent_sel (fx : fixes) (p : position) (x y : Z) : res (Z * Z) :=
+  if fx_ds fx then adjacent_ex p x y (-1) (-1) else adjacent_sq p x y.
+
 Definition mk (x y : Z) (t s : N) : rmove := {| mX := wrap8 x; mY := wrap8 y; mT := t; mS := s |}.
 
 (* Cairn.freeReply (repair fx_cb): first empty square, rows bottom-up, that the rule's check accepts *)
@@ -152,7 +156,7 @@ Definition get_move (fx : fixes) (v : variant) (st : fstate) (p : position) : op
   | DoubleStack =>
     if k =? 2 then
       let '(x, y) := whitePlace st in
-      Some (match adjacent_sq p x y with
+      Some (match adjacent_sel fx p x y with
             | Ok (ex, ey) => match dir_of x y ex ey with Ok t => Ok (mk x y t 1) | Err => Err | Panic => Panic end
             | Err => Err | Panic => Panic end)
     else if k =? 3 then
@@ -169,7 +173,7 @@ Definition get_move (fx : fixes) (v : variant) (st : fstate) (p : position) : op
   | Cairn =>
     if k =? 2 then
       let c := Z.quot (psize p) 2 in
-      Some (match adjacent_sq p c c with Ok (x, y) => Ok (mk x y 2 0) | Err => Err | Panic => Panic end)
+      Some (match adjacent_sel fx p c c with Ok (x, y) => Ok (mk x y 2 0) | Err => Err | Panic => Panic end)
     else if k =? 3 then
       let '(wx, wy) := whitePlace st in
       let half := wrap8 (Z.quot (wrap8 (psize p)) 2) in
